@@ -1,9 +1,105 @@
-(* C17 -- comment stripping never changes what a JSON document means. *)
-From Verif Require Import Lib.Base Lib.Sx Model.JsonPlus.
+(* C17 -- comment stripping never changes what a JSON document means.
+
+   Model: Model/JsonPlus.v (firstMatch, indexEnd, the split function of NewCommentReader with the
+   marker tables of NewJsonPlusReader regenerated from json/json.go, bufio.Scanner.Scan, the
+   draining Read).  [reader segs fin] is what a consumer receives when the underlying stream
+   delivers the read segments [segs] and then EOF (fin = 0): the output bytes and how it ended.
+   [strip d] is the segmentation-free specification: the split function applied, at EOF, to the
+   whole remaining input.  Property theorems only; proofs are in Proofs/JsonPlus*.v. *)
+From Verif Require Import Lib.Base Lib.Sx Gen.Gen_json Model.JsonPlus.
+From Verif Require Import Proofs.JsonPlusIndex Proofs.JsonPlusSplit Proofs.JsonPlusScan
+  Proofs.JsonPlusStrip Proofs.JsonPlusTotal Proofs.JsonPlusExamples.
 Open Scope N_scope.
 
-Theorem c17_tables_shape :
-  length start_matches = 4%nat /\ length end_matches = 4%nat /\ length is_comments = 4%nat /\ length required_matches = 4%nat.
-Proof. vm_compute. auto. Qed.
+(* [core] A token the split function returns on a prefix of the input (not at EOF) is returned
+   unchanged -- same advance, same bytes -- on every extension of that prefix, at EOF or not. *)
+Theorem c17_split_stable d adv tok :
+  split d false = Ok (Tok adv tok) -> forall x e, split (d ++ x) e = Ok (Tok adv tok).
+Proof. intros H x e. exact (split_stable d x e adv tok H). Qed.
 
-Print Assumptions c17_tables_shape.
+(* A token always consumes at least one byte, never more than is buffered, and is a prefix of
+   the data (so Scanner.Scan neither spins nor reports a bad advance), and the split function
+   itself never indexes out of range. *)
+Theorem c17_split_progress d e adv tok :
+  split d e = Ok (Tok adv tok) ->
+  (0 < adv <= lenZ d)%Z /\ exists n, (n <= Z.to_nat adv)%nat /\ tok = firstn n d.
+Proof. exact (split_tok_facts d e adv tok). Qed.
+
+Theorem c17_split_total d e s : split d e <> Panic s.
+Proof. exact (split_no_panic d e s). Qed.
+
+(* [core] Any segmentation of the input into (non-empty) reads, 1-byte reads included: the
+   consumer receives exactly strip of the whole input, so two segmentations of the same bytes
+   give the same output and the same end status.  The bound is the scanner's token limit, which
+   after the repair of DESIGN 5 item 21 is 2^62 bytes (c17_limit) -- no input that fits in
+   memory reaches it. *)
+Theorem c17_reader_is_strip segs :
+  Forall nonempty segs -> lenN (concat segs) < tok_limit -> reader segs 0 = strip (concat segs).
+Proof. exact (reader_strip segs). Qed.
+
+Theorem c17_segmentation segs1 segs2 :
+  Forall nonempty segs1 -> Forall nonempty segs2 -> concat segs1 = concat segs2 ->
+  lenN (concat segs1) < tok_limit -> reader segs1 0 = reader segs2 0.
+Proof. exact (reader_segmentation segs1 segs2). Qed.
+
+Theorem c17_limit : tok_limit = 4611686018427387904.
+Proof. exact tok_limit_value. Qed.
+
+(* [core] A document is a list of items: runs of punctuation / numbers / literals / white space
+   (no quote, apostrophe or slash -- JSON has none outside strings), string literals whose body
+   is any sequence of plain bytes and backslash pairs (so an escaped quote and an escaped backslash are covered), line comments
+   (body without newline; the comment disappears together with its newline), block comments
+   (body without the terminator), and optionally an unterminated line comment at the very end.
+   Comment bodies may contain quotes, apostrophes, backslashes and comment markers.
+   For every such document and every segmentation of its rendering into reads, the consumer
+   receives the undecorated text byte for byte and then EOF.  encoding/json is a function of
+   those bytes, hence decodes the same value. *)
+Theorem c17_strip segs d tail :
+  Forall nonempty segs -> concat segs = render_dec d tail -> doc_ok d tail = true ->
+  lenN (concat segs) < tok_limit ->
+  reader segs 0 = (render_plain d, Ok tt).
+Proof. exact (reader_doc segs d tail). Qed.
+
+Theorem c17_strip_spec d tail : doc_ok d tail = true -> strip (render_dec d tail) = (render_plain d, Ok tt).
+Proof. exact (strip_doc d tail). Qed.
+
+(* [core] A document without comments passes through byte for byte. *)
+Theorem c17_identity segs d :
+  Forall nonempty segs -> concat segs = render_dec d None -> forallb no_comment d = true ->
+  doc_ok d None = true -> lenN (concat segs) < tok_limit ->
+  reader segs 0 = (concat segs, Ok tt).
+Proof. exact (reader_identity segs d). Qed.
+
+(* Totality (imported by C07): for every list of read segments, empty reads included, and every
+   way the underlying stream ends (EOF or a read error), the reader model never reaches a Go
+   run-time panic and its loop terminates (the model's fuel is adequate). *)
+Theorem jsonplus_total segs fin :
+  fin <> E_FUEL ->
+  (forall s, snd (reader segs fin) <> Panic s) /\ snd (reader segs fin) <> Err E_FUEL.
+Proof. exact (jsonplus_total segs fin). Qed.
+
+(* Non-vacuity: a concrete document with an escaped quote followed by slashes inside a string,
+   quotes / apostrophes / markers inside comments and an unterminated final line comment
+   satisfies the guard, and read one byte at a time it comes out as its undecorated text. *)
+Theorem c17_example :
+  doc_ok ex_doc ex_tail = true /\
+  Forall nonempty (map (fun c => [c]) (render_dec ex_doc ex_tail)) /\
+  reader (map (fun c => [c]) (render_dec ex_doc ex_tail)) 0 = (render_plain ex_doc, Ok tt).
+Proof. exact (conj ex_doc_ok (conj ex_doc_segs_nonempty ex_doc_bytewise)). Qed.
+
+(* Regression witness of DESIGN 5 item 20 (repaired): the escaped quote no longer ends the literal. *)
+Theorem c17_escaped_quote_intact : reader [w_escaped] 0 = (w_escaped, Ok tt).
+Proof. exact ex_escaped_quote_now_intact. Qed.
+
+Print Assumptions c17_split_stable.
+Print Assumptions c17_split_progress.
+Print Assumptions c17_split_total.
+Print Assumptions c17_reader_is_strip.
+Print Assumptions c17_segmentation.
+Print Assumptions c17_limit.
+Print Assumptions c17_strip.
+Print Assumptions c17_strip_spec.
+Print Assumptions c17_identity.
+Print Assumptions jsonplus_total.
+Print Assumptions c17_example.
+Print Assumptions c17_escaped_quote_intact.
